@@ -256,6 +256,9 @@ def annotate_loops(body, loops_spec, fname):
             after = spec.get('after', '')
             body = body[:cb] + ('\n' + bot + '\n' if bot else '') + body[cb:cb + 1] + ('\n' + after + '\n' if after else '') + body[cb + 1:]
             body = body[:ob] + '\n' + pre + '\n{' + ('\n' + top + '\n' if top else '') + body[ob + 1:]
+            if spec.get('before'):
+                ls = body.rfind('\n', 0, kw) + 1
+                body = body[:ls] + spec['before'] + '\n' + body[ls:]
         else:
             body = body[:ob] + '\n' + spec + '\n' + body[ob:]
     return body
@@ -403,9 +406,12 @@ def rule_A1(text):
         else:
             cond = parts[0].strip()
         out.append(text[j:m.start()])
-        out.append('assert(%s)' % cond)
+        # the condition is evaluated in exec mode (its own overflow/bounds obligations included), then must be proved
+        out.append('{ let verif_cond: bool = %s; assert(verif_cond); }' % cond)
         n += 1
         j = cp + 1
+        if text[j:j + 1] == ';':
+            j += 1
     return ''.join(out), n
 
 
